@@ -250,6 +250,15 @@ func MethodLabel(b *Built, s *m.Service, meth *m.Method) string {
 
 // BuildOne builds and starts a hand-written design (known-finding probes).
 func BuildOne(t *testing.T, tag string, d *m.Design) (*pipeline.Session, *pipeline.Harness) {
+	return buildOne(t, tag, d, false)
+}
+
+// BuildOneRace is BuildOne with a harness built with the race detector.
+func BuildOneRace(t *testing.T, tag string, d *m.Design) (*pipeline.Session, *pipeline.Harness) {
+	return buildOne(t, tag, d, true)
+}
+
+func buildOne(t *testing.T, tag string, d *m.Design, race bool) (*pipeline.Session, *pipeline.Harness) {
 	sess, err := pipeline.NewSession(tag)
 	if err != nil {
 		t.Fatalf("INCONCLUSIVE: %v", err)
@@ -259,7 +268,7 @@ func BuildOne(t *testing.T, tag string, d *m.Design) (*pipeline.Session, *pipeli
 		sess.Close()
 		t.Fatalf("INCONCLUSIVE: probe design: %s", out.Describe())
 	}
-	bin, diag, err := sess.BuildHarness(out.Run, false)
+	bin, diag, err := sess.BuildHarness(out.Run, race)
 	if err != nil {
 		sess.Close()
 		t.Fatalf("INCONCLUSIVE: probe harness: %v %s", err, diag)
